@@ -198,9 +198,9 @@ fn k_obs_reenter__emit_in_complete() {
       if !again.get() {
         again.set(true);
         if let Some(o) = slot.get() {
+          o.complete(); // the same terminal again, first (while its own slot may still be present)
           o.next(1);
           o.error(err(2));
-          o.complete();
         }
       }
     },
@@ -223,9 +223,9 @@ fn k_obs_reenter__emit_in_error() {
       if !again.get() {
         again.set(true);
         if let Some(o) = slot.get() {
+          o.error(err(2)); // the same terminal again, first
           o.next(1);
           o.complete();
-          o.error(err(2));
         }
       }
     },
